@@ -86,7 +86,7 @@ def build_world(cfg):
     nb = min(cfg["brackets"], len(levels) + 1)
     sign = 1.0 if cfg["mode"] == "min" else -1.0
     perms = {int(k): tuple(v) for k, v in cfg["perms"].items()}
-    table = table_from_perms(cfg["T"], max_t, perms, sign)
+    table = table_from_perms(cfg["T"], max_t, perms, sign, zero_rank=cfg.get("zero_rank"))
     spec = dict(W=cfg["W"], T=cfg["T"], R=max_t, table=table, brackets=(nb if nb > 1 else 0) if not cfg.get("free_brackets") else 0,
                 max_resource_attr="epochs" if cfg.get("use_mra") else None,
                 fail_budget=cfg.get("F", 0))
@@ -145,6 +145,7 @@ def configs(tier, seed):
                             perms[str(levels[1])] = perm2
                         cfg = dict(rs=rs_name, mode=mode, brackets=brackets, per_bracket=per_bracket, type=typ,
                                    rush_k=k, T=T, W=W, perms=perms, seed=seed, use_mra=(i % 2 == 1))
+                        cfg["zero_rank"] = [None, T - 1, 1][(i + len(out)) % 3]
                         if tier == "quick":
                             cfg["max_states"] = 4000
                         else:
